@@ -8,6 +8,14 @@
 //	chat(text, last-seen offset) | scmd = SessionPlayerCommand(text, offset, with/without
 //	argument signatures) | ucmd = UnsignedPlayerCommand(text) (>= 766) | ack(offset 0..25)
 //
+// Chat outcomes {untouched, rewritten, denied} are decided per chat message by a
+// PlayerChatEvent subscriber (SetMessage / SetAllowed(false), e.g. a chat filter). Gate permits
+// both for unsigned chat, and for signed chat unless forceKeyAuthentication is set. A rewritten
+// chat is forwarded (new text) and carries a last-seen update: it is a catch-up point like any
+// other forwarded chat. A denied chat is consumed: the acknowledgements it expressed (and the
+// ones held back that the chat state folded into its last-seen update) must not be lost; they
+// stay held or reach the backend as a ChatAcknowledgement, as for a consumed command.
+//
 // Command outcomes {registered proxy command -> consumed, unknown -> forwarded, event deny,
 // event forward} are decided per command by a CommandExecuteEvent subscriber on a real
 // event.Manager which also yields/sleeps a PRNG-chosen amount; the registered proxy command
@@ -35,7 +43,10 @@
 // argument signatures (it drops it, and kicks under forceKeyAuthentication), which loses the
 // acknowledgements that command carried: that sub-class ("signed-consumed") is generated,
 // only order is asserted from the first such command on, and what was observed is reported
-// in the evidence (not as a violation).
+// in the evidence (not as a violation). Likewise, rewriting or denying a SIGNED chat message
+// under forceKeyAuthentication is answered by disconnecting the player ("illegal protocol
+// state"): sub-class "signed-chat-touched", only order (and no crash) is asserted from the
+// first such chat on.
 package c21
 
 import (
@@ -72,16 +83,19 @@ type item struct {
 	Offset     int    `json:"o"`
 	SignedArgs bool   `json:"sig,omitempty"`
 	SignedChat bool   `json:"sc,omitempty"`
-	Outcome    string `json:"out,omitempty"` // proxy | unknown | deny | forward
-	EvDelay    int    `json:"ed,omitempty"`  // event handler: <100 yields, else (v-100) microseconds sleep
-	CmdDelay   int    `json:"cd,omitempty"`  // proxy command body: same encoding
-	Gap        int    `json:"g,omitempty"`   // yields before feeding this packet
+	Outcome    string `json:"out,omitempty"`     // proxy | unknown | deny | forward
+	ChatOut    string `json:"co,omitempty"`      // chat: "" (untouched) | rewrite | deny (PlayerChatEvent subscriber)
+	Rewrite    string `json:"rw,omitempty"`      // chat: the text the subscriber sets
+	Touched    bool   `json:"touched,omitempty"` // signed chat rewritten/denied under forceKeyAuthentication: Gate disconnects the player
+	EvDelay    int    `json:"ed,omitempty"`      // event handler: <100 yields, else (v-100) microseconds sleep
+	CmdDelay   int    `json:"cd,omitempty"`      // proxy command body: same encoding
+	Gap        int    `json:"g,omitempty"`       // yields before feeding this packet
 }
 
 type spec struct {
 	Seed         int64  `json:"seed"`
 	Proto        int    `json:"proto"`
-	Sub          string `json:"sub"` // main | signed-consumed
+	Sub          string `json:"sub"` // main | signed-consumed | signed-chat-touched
 	ForceKeyAuth bool   `json:"force_key_auth,omitempty"`
 	StallMax     int    `json:"stall_max"`
 	Items        []item `json:"items"`
@@ -116,9 +130,14 @@ func doDelay(v int) {
 func genSpec(seed int64) *spec {
 	rng := rand.New(rand.NewSource(seed))
 	sp := &spec{Seed: seed, Proto: 761 + rng.Intn(15), Sub: "main", StallMax: rng.Intn(8)}
-	if rng.Intn(10) == 0 {
+	switch rng.Intn(20) {
+	case 0, 1:
 		sp.Sub = "signed-consumed"
 		sp.ForceKeyAuth = rng.Intn(2) == 0
+	case 2:
+		// a signed chat message is rewritten / denied under forceKeyAuthentication
+		sp.Sub = "signed-chat-touched"
+		sp.ForceKeyAuth = true
 	}
 	n := 1 + rng.Intn(59)
 	ackHeavy := rng.Intn(3) == 0
@@ -151,6 +170,22 @@ func genSpec(seed int64) *spec {
 		case "chat":
 			it.Text = fmt.Sprintf("hello i%d", i)
 			it.SignedChat = rng.Intn(2) == 0
+			// PlayerChatEvent outcome. Without forceKeyAuthentication Gate permits rewriting and
+			// denying every chat message; with it, only unsigned ones (touching a signed one
+			// disconnects the player: sub-class signed-chat-touched)
+			if sp.Sub == "signed-chat-touched" || !sp.ForceKeyAuth || !it.SignedChat {
+				switch r := rng.Intn(20); {
+				case r < 5:
+					it.ChatOut = "rewrite"
+					it.Rewrite = fmt.Sprintf("filtered (%d) i%d", rng.Intn(1000), i)
+				case r < 8:
+					it.ChatOut = "deny"
+				}
+				if it.ChatOut != "" {
+					it.EvDelay = delay(rng)
+					it.Touched = sp.ForceKeyAuth && it.SignedChat
+				}
+			}
 		case "scmd", "ucmd":
 			it.Outcome = []string{"proxy", "unknown", "deny", "forward"}[rng.Intn(4)]
 			root := "zz"
@@ -162,7 +197,7 @@ func genSpec(seed int64) *spec {
 			it.CmdDelay = delay(rng)
 			if it.Kind == "scmd" && rng.Intn(10) < 3 {
 				it.SignedArgs = true
-				if sp.Sub == "main" && (it.Outcome == "proxy" || it.Outcome == "deny") {
+				if sp.Sub != "signed-consumed" && (it.Outcome == "proxy" || it.Outcome == "deny") {
 					it.Outcome = []string{"unknown", "forward"}[rng.Intn(2)]
 					if it.Outcome == "unknown" {
 						it.Text = fmt.Sprintf("zz i%d", i)
@@ -198,18 +233,19 @@ type rec struct {
 }
 
 type run struct {
-	sp        *spec
-	clock     atomic.Int64
-	mu        sync.Mutex
-	stream    []rec
-	callStamp []int64
-	invoked   map[int]int // proxy command invocations by item id
-	evSeen    map[int]int
-	kicked    bool
-	heldAtEnd int
-	finalSeen chan struct{}
-	fwdCount  atomic.Int32
-	encodeErr []string
+	sp         *spec
+	clock      atomic.Int64
+	mu         sync.Mutex
+	stream     []rec
+	callStamp  []int64
+	invoked    map[int]int // proxy command invocations by item id
+	evSeen     map[int]int
+	chatEvSeen map[int]int
+	kicked     bool
+	heldAtEnd  int
+	finalSeen  chan struct{}
+	fwdCount   atomic.Int32
+	encodeErr  []string
 }
 
 func (x *run) snapshot(p proto.Packet) {
@@ -253,7 +289,7 @@ var sig256 = bytes.Repeat([]byte{0xab}, 256)
 
 func execute(sp *spec) (*run, bool) {
 	rng := rand.New(rand.NewSource(sp.Seed ^ 0x2545f491))
-	x := &run{sp: sp, invoked: map[int]int{}, evSeen: map[int]int{}, finalSeen: make(chan struct{}, 1), callStamp: make([]int64, len(sp.Items))}
+	x := &run{sp: sp, invoked: map[int]int{}, evSeen: map[int]int{}, chatEvSeen: map[int]int{}, finalSeen: make(chan struct{}, 1), callStamp: make([]int64, len(sp.Items))}
 	var stall []int
 	if sp.StallMax > 0 {
 		stall = make([]int, 16)
@@ -293,6 +329,23 @@ func execute(sp *spec) (*run, bool) {
 			e.SetAllowed(false)
 		case "forward":
 			e.SetForward(true)
+		}
+	})
+	event.Subscribe(mgr, 0, func(e *proxy.PlayerChatEvent) {
+		id := idOf(e.Original())
+		if id < 0 || id >= len(sp.Items) {
+			return
+		}
+		it := sp.Items[id]
+		x.mu.Lock()
+		x.chatEvSeen[id]++
+		x.mu.Unlock()
+		doDelay(it.EvDelay)
+		switch it.ChatOut {
+		case "rewrite":
+			e.SetMessage(it.Rewrite)
+		case "deny":
+			e.SetAllowed(false)
 		}
 	})
 	var cmds command.Manager
@@ -365,7 +418,7 @@ func execute(sp *spec) (*run, bool) {
 func expectForwarded(it item) bool {
 	switch it.Kind {
 	case "chat":
-		return true
+		return it.ChatOut != "deny" && !it.Touched
 	case "scmd", "ucmd":
 		return it.Outcome == "unknown" || it.Outcome == "forward"
 	}
@@ -376,6 +429,18 @@ func expectForwarded(it item) bool {
 // carries argument signatures.
 func refused(it item) bool {
 	return it.Kind == "scmd" && it.SignedArgs && (it.Outcome == "proxy" || it.Outcome == "deny")
+}
+
+// touchedSigned reports the sub-class Gate answers by disconnecting the player: a signed chat
+// message rewritten or denied by a PlayerChatEvent subscriber under forceKeyAuthentication.
+func touchedSigned(it item) bool { return it.Kind == "chat" && it.Touched }
+
+// wantText is the text the backend must receive for a forwarded client packet.
+func wantText(it item) string {
+	if it.Kind == "chat" && it.ChatOut == "rewrite" {
+		return it.Rewrite
+	}
+	return it.Text
 }
 
 // ---- offline checker ---------------------------------------------------------------------
@@ -456,12 +521,20 @@ func check(x *run) (vs []viol, st map[string]int, describe []string) {
 			last = p.Item
 		}
 		if !expectForwarded(it) {
-			add("consumed-or-denied-command-reached-backend", fmt.Sprintf("client packet %d (%s %q, outcome %s) reached the backend", p.Item, it.Kind, it.Text, it.Outcome))
+			if it.Kind == "chat" {
+				add("denied-chat-reached-backend", fmt.Sprintf("client packet %d (chat %q, PlayerChatEvent outcome %s, signed=%v) reached the backend as %q", p.Item, it.Text, it.ChatOut, it.SignedChat, p.Text))
+			} else {
+				add("consumed-or-denied-command-reached-backend", fmt.Sprintf("client packet %d (%s %q, outcome %s) reached the backend", p.Item, it.Kind, it.Text, it.Outcome))
+			}
 			ordered = false
 			continue
 		}
-		if p.Text != it.Text {
-			add("forwarded-text-changed", fmt.Sprintf("client packet %d %q reached the backend as %q", p.Item, it.Text, p.Text))
+		if p.Text != wantText(it) {
+			if it.Kind == "chat" && it.ChatOut == "rewrite" {
+				add("rewritten-chat-forwarded-with-wrong-text", fmt.Sprintf("client packet %d %q, rewritten to %q by the PlayerChatEvent subscriber, reached the backend as %q", p.Item, it.Text, it.Rewrite, p.Text))
+			} else {
+				add("forwarded-text-changed", fmt.Sprintf("client packet %d %q reached the backend as %q", p.Item, it.Text, p.Text))
+			}
 		}
 		switch {
 		case it.Kind == "ucmd" && p.Kind != "ucmd":
@@ -475,7 +548,7 @@ func check(x *run) (vs []viol, st map[string]int, describe []string) {
 	}
 	for i, it := range sp.Items {
 		if expectForwarded(it) && seen[i] == 0 {
-			add("forwarded-packet-missing", fmt.Sprintf("client packet %d (%s %q, outcome %s) never reached the backend", i, it.Kind, it.Text, it.Outcome))
+			add("forwarded-packet-missing", fmt.Sprintf("client packet %d (%s %q, outcome %s%s) never reached the backend", i, it.Kind, it.Text, it.Outcome, it.ChatOut))
 			ordered = false
 		}
 	}
@@ -485,6 +558,11 @@ func check(x *run) (vs []viol, st map[string]int, describe []string) {
 		if refused(it) {
 			taint = i
 			st["refused_signed_commands"]++
+			break
+		}
+		if touchedSigned(it) {
+			taint = i
+			st["signed_chats_touched_under_force_key_auth"]++
 			break
 		}
 	}
@@ -499,8 +577,10 @@ func check(x *run) (vs []viol, st map[string]int, describe []string) {
 	if !ordered {
 		return
 	}
+	// client packets that can make Gate write a ChatAcknowledgement: acks, consumed/denied
+	// commands with a last-seen update, and denied chat messages
 	canAck := func(it item) bool {
-		return it.Kind == "ack" || ((it.Kind == "scmd") && (it.Outcome == "proxy" || it.Outcome == "deny"))
+		return it.Kind == "ack" || ((it.Kind == "scmd") && (it.Outcome == "proxy" || it.Outcome == "deny")) || (it.Kind == "chat" && it.ChatOut == "deny")
 	}
 	// position of the next pinned packet after stream position k
 	nextPinned := make([]int, len(ps)+1)
@@ -558,6 +638,22 @@ func check(x *run) (vs []viol, st map[string]int, describe []string) {
 			}
 			// forwarded packet with a last-seen update: exact catch-up
 			st["catch_up_points_checked"]++
+			rewritten := it.Kind == "chat" && it.ChatOut == "rewrite"
+			if rewritten {
+				st["catch_up_points_at_rewritten_chat"]++
+				if p.Offset > it.Offset {
+					st["rewritten_chats_carrying_held_acks"]++
+				}
+			}
+			deniedChatBetween := false
+			for j := lastSync + 1; j < p.Item; j++ {
+				if sp.Items[j].Kind == "chat" && sp.Items[j].ChatOut == "deny" {
+					deniedChatBetween = true
+				}
+			}
+			if deniedChatBetween {
+				st["catch_up_points_after_denied_chat"]++
+			}
 			if B != C[p.Item] {
 				unsignedBetween, consumedBetween := false, false
 				for j := lastSync + 1; j < p.Item; j++ {
@@ -569,9 +665,29 @@ func check(x *run) (vs []viol, st map[string]int, describe []string) {
 					}
 				}
 				where := fmt.Sprintf("right after forwarded client packet %d (%q) the backend has received %d acks, the client expressed %d", p.Item, it.Text, B, C[p.Item])
+				// acknowledgements expressed by plain ChatAcknowledgement packets after the last
+				// consumed / unsigned / denied packet were certainly held back when this packet was
+				// forwarded: if it carries nothing but the client's own offset, this packet lost them
+				plainPending := 0
+				for j := lastSync + 1; j < p.Item; j++ {
+					switch jt := sp.Items[j]; {
+					case jt.Kind == "ack":
+						plainPending += jt.Offset
+					case jt.Kind == "ucmd", jt.Kind == "scmd" && !expectForwarded(jt), jt.Kind == "chat" && jt.ChatOut == "deny":
+						plainPending = 0
+					}
+				}
 				switch {
 				case B > C[p.Item]:
 					add("backend-acks-exceed-client-acks", where)
+				case rewritten && plainPending > 0 && p.Offset == it.Offset:
+					add("acks-not-caught-up-at-rewritten-chat", where+fmt.Sprintf("; the packet is a chat message rewritten by a PlayerChatEvent subscriber, forwarded with the client's own last-seen offset %d although %d acknowledgements from plain ChatAcknowledgement packets were held back", p.Offset, plainPending))
+				case deniedChatBetween && (unsignedBetween || consumedBetween):
+					add("acks-lost-across-denied-chat-and-consumed-or-unsigned-command", where+"; a chat message denied by a PlayerChatEvent subscriber and consumed/unsigned commands lie between this and the previous catch-up point")
+				case deniedChatBetween:
+					add("acks-lost-across-denied-chat", where+"; a chat message denied by a PlayerChatEvent subscriber (and no consumed or unsigned command) lies between this and the previous catch-up point")
+				case rewritten && !unsignedBetween && !consumedBetween:
+					add("acks-not-caught-up-at-rewritten-chat", where+fmt.Sprintf("; the packet is a chat message rewritten by a PlayerChatEvent subscriber, forwarded with last-seen offset %d (client offset %d)", p.Offset, it.Offset))
 				case unsignedBetween && consumedBetween:
 					add("acks-lost-across-consumed-or-unsigned-command", where+"; consumed and unsigned commands lie between this and the previous catch-up point")
 				case unsignedBetween:
@@ -618,7 +734,7 @@ func check(x *run) (vs []viol, st map[string]int, describe []string) {
 func TestC21(t *testing.T) {
 	r := lib.Start(t, "C21")
 	defer r.Finish()
-	r.Rule("each case is one client sequence of <= 60 packets over {chat, SessionPlayerCommand with/without argument signatures, UnsignedPlayerCommand (>=766), ChatAcknowledgement(0..25)} for a protocol in 761..775, with per-command outcome {registered proxy command, unknown, event deny, event forward} and PRNG delays in the event subscriber, the proxy command body and the backend conn, closed by a chat message; distinct = distinct (spec, decoded backend stream); a case whose backend stream has fewer than 2 packets is trivial and not counted")
+	r.Rule("each case is one client sequence of <= 60 packets over {chat, SessionPlayerCommand with/without argument signatures, UnsignedPlayerCommand (>=766), ChatAcknowledgement(0..25)} for a protocol in 761..775, with per-command outcome {registered proxy command, unknown, event deny, event forward}, per-chat PlayerChatEvent outcome {untouched, rewritten (SetMessage), denied} where Gate permits it (plus the sub-class where a signed chat is touched under forceKeyAuthentication and Gate disconnects the player) and PRNG delays in the event subscriber, the proxy command body and the backend conn, closed by a chat message; distinct = distinct (spec, decoded backend stream); a case whose backend stream has fewer than 2 packets is trivial and not counted")
 	r.Assume("client packets are fed by one goroutine, as the client read loop does")
 	r.Assume("what the backend receives is Gate's own encoding of each written packet (snapshot at WritePacket), decoded by the independent ref/chatwire decoder; packet ids are out of scope (C06)")
 	r.Assume("ack packets carry no id: they are attributed to the client packets lying between the neighbouring id-carrying packets whose HandlePacket call preceded the write (most favourable attribution)")
@@ -641,6 +757,7 @@ func TestC21(t *testing.T) {
 	protos := map[int]int{}
 	subs := map[string]int{}
 	kicks := 0
+	kicksBySub := map[string]int{}
 	for w := 0; w < workers; w++ {
 		wg.Add(1)
 		go func() {
@@ -689,6 +806,16 @@ func TestC21(t *testing.T) {
 				}
 				for _, it := range sp.Items {
 					agg["client_"+it.Kind]++
+					if it.Kind == "chat" {
+						o, sg := it.ChatOut, "unsigned"
+						if o == "" {
+							o = "untouched"
+						}
+						if it.SignedChat {
+							sg = "signed"
+						}
+						agg["chat_"+o+"_"+sg]++
+					}
 					if it.Outcome != "" {
 						agg["outcome_"+it.Outcome]++
 					}
@@ -699,10 +826,14 @@ func TestC21(t *testing.T) {
 				for _, c := range x.invoked {
 					agg["proxy_command_invocations"] += c
 				}
+				for _, c := range x.chatEvSeen {
+					agg["PlayerChatEvent_subscriber_invocations"] += c
+				}
 				protos[sp.Proto]++
 				subs[sp.Sub]++
 				if x.kicked {
 					kicks++
+					kicksBySub[sp.Sub]++
 				}
 				aggMu.Unlock()
 				if len(desc) >= 2 {
@@ -726,4 +857,5 @@ func TestC21(t *testing.T) {
 	r.Set("sequences_by_protocol", protos)
 	r.Set("sequences_by_subclass", subs)
 	r.Set("players_kicked_in_refused_subclass", kicks)
+	r.Set("players_kicked_by_subclass", kicksBySub)
 }
